@@ -407,6 +407,7 @@ def cmd_check(cid: str, tier: str) -> int:
             "repo": root, "workers": workers,
         },
     }
+    ev["coverage"].update(getattr(mod, "EXTRA_COVERAGE", {}))
     if getattr(mod, "EXHAUSTIVE_NOTE", None):
         ev["coverage"]["enumeration_note"] = mod.EXHAUSTIVE_NOTE
     err = validate_evidence(ev)
